@@ -78,6 +78,8 @@ reg = {
                               "lock", "drop", "gt_id", "clone", "check_io_errors", "flush", "resize", "sync_file", "close", "write_barrier",
                               "invalidate_cache", "cancel_pending_write", "clear", "extend", "claim", "remove", "write_header",
                               "debug_assert_no_dirty_pages", "flush_shutdown_header"]},
+        # the binary searches of the leaf / branch accessors and the bound test of the range cursor, over an abstract page and an abstract total order
+        "search": {"overlay": "units/search.ovl", "canaries": ["canary_search"], "helpers": ["key_unchecked", "key", "child_page", "compare"]},
         "types_sep": {"overlay": "units/types_sep.ovl", "canaries": ["canary_types_sep"], "helpers": ["common_prefix_len"]},
         # the page-level checksum walk over an abstract page store
         "merkle": {"overlay": "units/merkle.ovl", "canaries": ["canary_merkle"],
@@ -199,10 +201,13 @@ P["C10"] = {
     "assumptions": ["docs/design.md lists '40 bytes: padding' before the transaction id of a commit slot; the fields then sum to 136 bytes, not 128. The oracle uses 32 bytes of padding (transaction id at 104, checksum at 112), the only reading consistent with the stated slot size; the document, not the code, is off by 8."],
 }
 P["C04"] = {
-    "level": "other",
+    "level": "proof",
+    "verus": [{"unit": "search", "functions": ["LeafAccessor::position", "LeafAccessor::find_key", "LeafAccessor::num_pairs", "BranchAccessor::child_for_key", "BranchAccessor::num_keys",
+                                               "Direction::entry_in_range_core"]}],
     "kani": [K["C04-T1"], K["C04-L1f"], K["C04-L1v"], K["C04-L2"]],
-    "explanation": "Kernel = the leaf page as a sorted array (bounded model checking of the real writer, reader and binary search against the sequence of pairs handed to the builder) plus the complete split/merge threshold arithmetic.",
-    "not_decided": "every tree operation: split, merge, rebalance, in-place leaf mutation (probed, too expensive), cursors, multi-transaction histories",
+    "assumptions": ["S1 (search unit): K::compare is a function of the two byte strings and a total order (reflexive, antisymmetric, transitive) - that it is the value order of each built-in key type is property C15; the n-th key / child of a page is an uninterpreted function of the page (key_unchecked, key, child_page are assumed to return it; the byte layout is checked by the bounded Kani harnesses C04-L1/L2); the keys of a page are strictly increasing (precondition `sorted`, property C10)"],
+    "explanation": "Kernel = every lookup, insert and range scan reaches its entry through two binary searches, verified on their REAL loops for every page size and every total order: LeafAccessor::position reports a match only at an entry whose key equals the query and otherwise returns the insertion point (all keys before it smaller, all keys from it on larger), find_key finds a key exactly when the page holds it; BranchAccessor::child_for_key picks the child whose key interval contains the query (all separators before it smaller than the query, the separator at it greater or equal); the REAL bound test of the mutable range cursor (entry_in_range) yields an entry only while its key is on the inner side of the bound parked by the other end (Included / Excluded / Unbounded, both directions). Plus the leaf page as a sorted array (bounded model checking of the real writer, reader and binary search against the sequence of pairs handed to the builder) and the complete split/merge threshold arithmetic.",
+    "not_decided": "every tree operation of btree_mutator.rs: split, merge, rebalance, in-place leaf mutation (probed, too expensive), the cursor state machines around the verified bound test, multi-transaction histories",
 }
 P["C06"] = {
     "level": "proof",
